@@ -26,6 +26,11 @@ theorem rowOf_eq (nb : List (List Nat)) (k : Nat) (idx : List Nat) (j : Nat) (hi
   unfold rowOf
   rw [getD_list nb _ [] hi]
 
+theorem rowOf_eq' (nb : List (List Nat)) (k : Nat) (idx : List Nat) (j i : Nat) (he : idx.getD j 0 = i)
+    (hi : i < nb.length) : rowOf nb k idx j = (nb[i]).take k := by
+  subst he
+  exact rowOf_eq nb k idx j hi
+
 theorem rowOf_length {nb : List (List Nat)} {N k : Nat} (hv : ValidNeighbors nb N k) {idx : List Nat}
     (hall : ∀ x ∈ idx, x < N) {j : Nat} (hj : j < idx.length) : (rowOf nb k idx j).length = k := by
   have hi : idx.getD j 0 < nb.length := by rw [hv.len]; exact getD_lt_of_all hall hj
@@ -56,10 +61,8 @@ theorem gather_ok {nb : List (List Nat)} {N k : Nat} (hv : ValidNeighbors nb N k
     have hjl : j < idx.length := by omega
     have hi : idx[j] < nb.length := by rw [hv.len]; exact hall _ (List.getElem_mem hjl)
     have hk := hv.rows _ hi
-    have hrow : rowOf nb k idx j = (nb[idx[j]]).take k := by
-      have hg : idx.getD j 0 = idx[j] := getD_of_lt idx j hjl
-      rw [rowOf_eq nb k idx j (by rw [hg]; exact hi)]
-      simp [hg]
+    have hrow : rowOf nb k idx j = (nb[idx[j]]).take k :=
+      rowOf_eq' nb k idx j _ (getD_of_lt idx j hjl) hi
     simp [gatherNeighbors, hjl, neighborRow, hi, hk, ih (j + 1) (by omega), List.range'_succ, hrow]
 
 /-- indexing into the concatenation of rows of equal length `k` -/
@@ -83,5 +86,138 @@ theorem flatten_getElem? {α : Type} (k : Nat) :
       have : k * (j + 1) + p - r.length = k * j + p := by rw [hr, Nat.mul_succ]; omega
       rw [this, ih (fun r' hr' => hlen r' (by simp [hr'])) j p hp]
       simp
+
+theorem rows_getElem? (rowsF : Nat → List Nat) (nup j : Nat) (hj : j < nup) :
+    ((List.range' 0 nup).map rowsF)[j]? = some (rowsF j) := by
+  simp [hj]
+
+/-- the overwrite loop of the local branch stays in range and writes, at position `nup + j`, one of the `k`
+    candidate partners of the `j`-th first member; all other positions keep their value -/
+theorem overwrite_ok {N k nup : Nat} {flat : List Nat} {rowsF : Nat → List Nat}
+    (hflat : flat = ((List.range' 0 nup).map rowsF).flatten)
+    (hrows : ∀ j, j < nup → (rowsF j).length = k)
+    (fv : Nat → Int) (c0 : Nat) (hfv : ∀ c, 0 ≤ fv c ∧ fv c < k) (h2 : 2 * nup ≤ N) :
+    ∀ todo j idx, j + todo = nup → idx.length = N →
+      ∃ idx', overwriteLoop k nup flat fv c0 todo j idx = .ok idx' ∧ idx'.length = N
+        ∧ (∀ p, p < nup + j → idx'[p]? = idx[p]?)
+        ∧ (∀ p, nup + nup ≤ p → idx'[p]? = idx[p]?)
+        ∧ (∀ j', j ≤ j' → j' < nup → ∃ v, v ∈ rowsF j' ∧ idx'[nup + j']? = some v) := by
+  intro todo
+  induction todo with
+  | zero =>
+    intro j idx hj hlen
+    refine ⟨idx, rfl, hlen, fun _ _ => rfl, fun _ _ => rfl, ?_⟩
+    intro j' h1 h3
+    omega
+  | succ todo ih =>
+    intro j idx hj hlen
+    have hjn : j < nup := by omega
+    obtain ⟨hf0, hfk⟩ := hfv (c0 + j)
+    -- the index r
+    have hr0 : ¬ (fv (c0 + j) + ((k * j : Nat) : Int) < 0) := by
+      have : (0 : Int) ≤ ((k * j : Nat) : Int) := Int.natCast_nonneg _
+      omega
+    have hp : (fv (c0 + j)).toNat < k := by omega
+    have hrt : (fv (c0 + j) + ((k * j : Nat) : Int)).toNat = k * j + (fv (c0 + j)).toNat := by omega
+    have hall : ∀ r ∈ (List.range' 0 nup).map rowsF, r.length = k := by
+      intro r hr
+      obtain ⟨a, ha, rfl⟩ := List.mem_map.mp hr
+      have : a < nup := by simpa using ha
+      exact hrows a this
+    have hget : flat[k * j + (fv (c0 + j)).toNat]? = (rowsF j)[(fv (c0 + j)).toNat]? := by
+      rw [hflat, flatten_getElem? k _ hall j _ hp, rows_getElem? rowsF nup j hjn]
+      rfl
+    have hpl : (fv (c0 + j)).toNat < (rowsF j).length := by rw [hrows j hjn]; exact hp
+    have hsome : flat[k * j + (fv (c0 + j)).toNat]? = some ((rowsF j)[(fv (c0 + j)).toNat]) := by
+      rw [hget, List.getElem?_eq_getElem hpl]
+    have hpos : nup + j < idx.length := by omega
+    obtain ⟨idx', hrun, hl', hlow, hhigh, hset⟩ :=
+      ih (j + 1) (idx.set (nup + j) ((rowsF j)[(fv (c0 + j)).toNat])) (by omega) (by simp [hlen])
+    refine ⟨idx', ?_, hl', ?_, ?_, ?_⟩
+    · simp only [overwriteLoop, hr0, if_false, hrt, hsome, hpos, if_true]
+      exact hrun
+    · intro p hp'
+      rw [hlow p (by omega), List.getElem?_set_ne (by omega)]
+    · intro p hp'
+      rw [hhigh p hp', List.getElem?_set_ne (by omega)]
+    · intro j' h1 h3
+      rcases Nat.eq_or_lt_of_le h1 with h | h
+      · subst h
+        refine ⟨_, List.getElem_mem hpl, ?_⟩
+        rw [hlow (nup + j) (by omega), List.getElem?_set_self hpos]
+      · exact hset j' (by omega) h3
+
+/-- what the local strategy preserves of the index vector: its length and the range of its entries -/
+def Bounded (N : Nat) (idx : List Nat) : Prop := idx.length = N ∧ ∀ x ∈ idx, x < N
+
+theorem bounded_range (N : Nat) : Bounded N (List.range N) := ⟨by simp, fun x hx => by simpa using hx⟩
+
+theorem applyShuffle_bounded {N : Nat} {π idx : List Nat} (hπ : π.Perm (List.range N)) (h : Bounded N idx) :
+    Bounded N (applyShuffle π idx) := by
+  refine ⟨by rw [applyShuffle_length]; simpa using hπ.length_eq, ?_⟩
+  intro x hx
+  obtain ⟨p, hp, rfl⟩ := List.mem_map.mp hx
+  have hpN : p < N := by simpa using (hπ.mem_iff).mp hp
+  exact getD_lt_of_all h.2 (by rw [h.1]; exact hpN)
+
+/-- one iteration of the index bookkeeping in the local strategy, as written -/
+theorem idxStep_local {N k nup : Nat} {nb : List (List Nat)} (hv : ValidNeighbors nb N k) (h2 : 2 * nup ≤ N)
+    {π : List Nat} (hπ : π.Perm (List.range N)) {idx : List Nat} (hb : Bounded N idx)
+    (fv : Nat → Int) (c0 : Nat) (hfv : ∀ c, 0 ≤ fv c ∧ fv c < k) :
+    ∃ idx', idxStep false nb k nup π fv c0 idx = .ok idx' ∧ Bounded N idx' ∧
+      ∀ j, j < nup → idx'.getD j 0 = (applyShuffle π idx).getD j 0 ∧
+        idx'.getD (nup + j) 0 ∈ rowOf nb k idx' j := by
+  have hb1 := applyShuffle_bounded hπ hb
+  have hg := gather_ok hv hb1.2 nup 0 (by rw [hb1.1]; omega)
+  have hrows : ∀ j, j < nup → (rowOf nb k (applyShuffle π idx) j).length = k :=
+    fun j hj => rowOf_length hv hb1.2 (by rw [hb1.1]; omega)
+  obtain ⟨idx', hrun, hl', hlow, hhigh, hset⟩ :=
+    overwrite_ok (N := N) (rowsF := rowOf nb k (applyShuffle π idx)) rfl hrows fv c0 hfv h2 nup 0
+      (applyShuffle π idx) (by omega) hb1.1
+  have hfirst : ∀ j, j < nup → idx'.getD j 0 = (applyShuffle π idx).getD j 0 := by
+    intro j hj
+    simp only [List.getD_eq_getElem?_getD, hlow j (by omega)]
+  refine ⟨idx', ?_, ⟨hl', ?_⟩, ?_⟩
+  · simp only [idxStep, hg]
+    exact hrun
+  · intro x hx
+    obtain ⟨p, hp⟩ := List.getElem?_of_mem hx
+    by_cases h1 : p < nup
+    · rw [hlow p (by omega)] at hp
+      exact hb1.2 x (List.mem_of_getElem? hp)
+    · by_cases h3 : p < nup + nup
+      · obtain ⟨v, hv1, hv2⟩ := hset (p - nup) (by omega) (by omega)
+        have : nup + (p - nup) = p := by omega
+        rw [this, hp] at hv2
+        cases hv2
+        exact (rowOf_mem hv hb1.2 (by rw [hb1.1]; omega) hv1).1
+      · rw [hhigh p (by omega)] at hp
+        exact hb1.2 x (List.mem_of_getElem? hp)
+  · intro j hj
+    refine ⟨hfirst j hj, ?_⟩
+    obtain ⟨v, hv1, hv2⟩ := hset j (by omega) hj
+    have hrow : rowOf nb k idx' j = rowOf nb k (applyShuffle π idx) j := by
+      unfold rowOf
+      rw [hfirst j hj]
+    rw [hrow]
+    simp only [List.getD_eq_getElem?_getD, hv2, Option.getD_some]
+    exact hv1
+
+/-- the local strategy for every stream: no out-of-range access, entries stay below `N`, and every partner is one
+    of the first `k` neighbours of its first member (hence different from it) -/
+theorem indicesAt_local {N k nup : Nat} {nb : List (List Nat)} (hv : ValidNeighbors nb N k) (h2 : 2 * nup ≤ N)
+    (shuffle : Nat → List Nat) (hs : ∀ t, (shuffle t).Perm (List.range N))
+    (fv : Nat → Int) (hfv : ∀ c, 0 ≤ fv c ∧ fv c < k) (t : Nat) :
+    ∃ idx, indicesAt false nb k N nup shuffle fv t = .ok idx ∧ Bounded N idx ∧
+      ∀ j, j < nup → ind2 nup idx j ∈ rowOf nb k idx j := by
+  induction t with
+  | zero =>
+    obtain ⟨idx', h, hb, hp⟩ := idxStep_local hv h2 (hs 0) (bounded_range N) fv 0 hfv
+    exact ⟨idx', by simp [indicesAt, h], hb, fun j hj => (hp j hj).2⟩
+  | succ t ih =>
+    obtain ⟨idx, h, hb, _⟩ := ih
+    obtain ⟨idx', h', hb', hp⟩ :=
+      idxStep_local hv h2 (hs (t + 1)) hb fv ((t + 1) * drawsPerIter false nup) hfv
+    exact ⟨idx', by simp [indicesAt, h, h'], hb', fun j hj => (hp j hj).2⟩
 
 end TapkeeVerif.Spe
